@@ -72,6 +72,26 @@ func (c *Ctx) strLen(code Term) Term {
 	return l
 }
 
+// strByte: byte i of the string with this code - strings are immutable, so their bytes are an uninterpreted function of
+// (code, index), exact for short constants, related through slicing, concatenation, conversion from and to []byte and
+// append(b, s...). Nothing is known about bytes outside [0, strlen).
+func (c *Ctx) strByte(code, i Term) Term {
+	if !c.declared["strbyte"] {
+		c.declared["strbyte"] = true
+		c.decls = append(c.decls, "(declare-fun strbyte (Int Int) Int)")
+	}
+	return app(SInt, "strbyte", code, i)
+}
+
+// strSegFact: for 0 <= t < n, strbyte(r, t) == rhs(t) - quantified over the index with the left-hand side as trigger
+func (c *Ctx) strSegFact(r Term, lo, hi Term, rhs func(t Term) Term) Term {
+	c.nfresh++
+	t := Term{fmt.Sprintf("st_%d", c.nfresh), SInt}
+	lhs := c.strByte(r, t)
+	body := Implies(And(Le(lo, t), Lt(t, hi)), Eq(lhs, rhs(t)))
+	return Term{fmt.Sprintf("(forall ((%s Int)) (! %s :pattern (%s)))", t.S, body.S, lhs.S), SBool}
+}
+
 func (c *Ctx) freshArray(hint string, elem Sort) Term {
 	c.nfresh++
 	name := fmt.Sprintf("%s!%d", sanitize(hint), c.nfresh)
